@@ -7,7 +7,7 @@ iteration must stop within a logical budget of read/recv calls.
 
 import io
 
-from vf import common, doubles, streams
+from vf import common, doubles, refmodel, streams
 
 LEVEL = "exploration"
 RULE = (
@@ -44,6 +44,20 @@ def make_items(rng, n=None, adversarial=None):
             items.append(("ubx", streams.ubx(rng, 4096 if rng.random() < 0.1 else 200, dense=rng.random() < 0.5), None))
         else:
             items.append(("noise", streams.inert_noise(rng), None))
+    # static messages repeat verbatim; a different frame may carry the same CRC trailer
+    frames = [it for it in items if it[2] is not None and 8 < len(it[1]) < 700 and streams.has_msgnum(it[2])]
+    for _ in range(rng.choice((0, 0, 1, 2))):
+        if not frames:
+            break
+        k, fr, p = rng.choice(frames)
+        if rng.random() < 0.5:
+            new = (k, fr, p)
+        else:
+            c = streams.crc_collider(fr, rng)
+            # only for unimplemented numbers: changing payload bits of a defined message need not leave it valid
+            unk = common.expected_identity(p) not in refmodel.tables()[0]
+            new = ("collider", c, c[3:-3]) if c is not None and unk else (k, fr, p)
+        items.insert(rng.randrange(len(items) + 1), new)
     if adversarial == "zero-first":
         items.insert(0, ("len0", streams.rand_frame(rng, "len0")[0], b""))
     elif adversarial == "zero-last":
